@@ -10,18 +10,23 @@ from ..effects import Effects, expr_path
 from ..identity import Ident, has_base, show
 from ..loops import dotted
 from ..nf import NF, Scope, Poly
-from ..repo import Repo, loc, short, AnalysisError, bind_call, positional_params
+from ..repo import Repo, loc, short, AnalysisError, bind_call, positional_params, param_names
 from ..resolve import Resolver
-from ..sem import TREE_MAPS, leaf_application, result_position, result_position_def
+from ..sem import TREE_MAPS, leaf_application, result_position, result_position_def, same_ingredients, ingredient_tokens
 
 EXPLANATION = (
-    "R1 decides the dataflow of the two helpers in target_net.py by def-use inlining into a normal form "
-    "(update(target, incremental_update(state(net), state(target), tau)) / update(target, state(net))) and, in the thorough "
-    "tier, the polynomial identity of optax.incremental_update's leaf function (step*new + (1-step)*old) from the installed source. "
+    "R1 reads the two helpers by the position of their parameters (net, target_net[, tau]) and per path: the object handed to nnx.update "
+    "and the leaf-wise normal form of the value (optax.incremental_update by signature, tree maps through their leaf function, the other "
+    "helper through its own update) must be the target and tau*state(net) + (1-tau)*state(target) / exactly state(net); a path without "
+    "update is accepted only for tau = 0. A differing value is a violation when it is built from the same ingredients, otherwise undecided. "
+    "In the thorough tier the polynomial identity of optax.incremental_update's leaf function (step*new + (1-step)*old) is re-read from the installed source. "
     "R2 computes object identities (parameters, nnx.clone results, constructor fields) and requires every target-role object to "
     "be distinct from every online object. R3 uses bottom-up write-effect summaries: target-role objects are written only by "
     "the two helpers, called as (online, target). R4 compares the set of branch conditions every helper call is control "
-    "dependent on with the documented cadence (required modulo literal, only warm-up literals besides). R5 checks the order "
+    "dependent on (locals bound once to simple values are replaced by these values, integer inequalities and max() gates are normalised, "
+    "parameters are taken from the recorded signature by position) with the documented cadence; a difference is a violation when it is a "
+    "cadence literal with another constant / parameter, a weakening disjunction, an additional understood condition or the complete absence of "
+    "the cadence among fully understood guards, otherwise undecided. R5 checks the order "
     "of chained copies (a value is copied out before it is overwritten)."
 )
 TRUSTED = [
@@ -92,20 +97,20 @@ def _helper_calls(repo, res, fn, cfg):
                 # the hard copy written out: nnx.update(target, nnx.state(online))
                 if isinstance(c.func, (ast.Name, ast.Attribute)) and repo.resolve_expr(mi, c.func) == "flax.nnx.update" and len(c.args) == 2 and not c.keywords \
                         and isinstance(c.args[1], ast.Call) and isinstance(c.args[1].func, (ast.Name, ast.Attribute)) and repo.resolve_expr(mi, c.args[1].func) == "flax.nnx.state" \
-                        and len(c.args[1].args) == 1 and not c.args[1].keywords and getattr(fn, "name", "") not in ("soft_target_net_update", "hard_target_net_update"):
+                        and len(c.args[1].args) == 1 and not c.args[1].keywords and not any(isinstance(a_, ast.Starred) for a_ in list(c.args) + list(c.args[1].args)):
                     out.append((n.id, c, "hard", (c.args[1].args[0], c.args[0]), (c.lineno, 0)))
                 continue
             kind = HELPERS[t.qual]
-            args = list(t.prefix) + list(c.args)
-            if len(args) < 2:
-                # keyword call: bind through the helper's signature (net, target_net[, tau])
-                kw = {k.arg: k.value for k in c.keywords if k.arg}
-                for pn in positional_params(repo.func(t.qual))[len(args):]:
-                    if pn in kw:
-                        args.append(kw[pn])
-                    else:
-                        break
-            if len(args) < 2:
+            # arguments by the helper's signature (net, target_net[, tau]): positional, keyword or bound by a partial alike
+            if any(isinstance(a_, ast.Starred) for a_ in c.args) or any(k.arg is None for k in c.keywords):
+                raise AnalysisError(f"{getattr(fn, '_qual', fn.name)}: helper call `{short(c, 60)}` with unpacked arguments (unrecognised form)")
+            hf = repo.func(t.qual)
+            b = bind_call(hf, c, list(t.prefix))
+            for kw_, v_ in (getattr(t, "kwargs", None) or {}).items():
+                b.setdefault(kw_, v_)
+            hp = _ordered_params(hf)
+            args = [b.get(pn) for pn in hp[:2]]
+            if len(args) < 2 or any(a_ is None or isinstance(a_, list) for a_ in args):
                 raise AnalysisError(f"{getattr(fn, '_qual', fn.name)}: helper call `{short(c, 60)}` cannot be bound to (net, target_net) (unrecognised idiom)")
             unrolled = None
             if isinstance(args[0], ast.Name) and isinstance(args[1], ast.Name):
@@ -133,32 +138,125 @@ def _helper_calls(repo, res, fn, cfg):
     return out
 
 
+_TRANSPARENT = ("int", "float")
+
+
+def _simple_value(v) -> bool:
+    """Arithmetic over names and numbers (int() / float() wrappers allowed): a value that can stand for the name it is bound to."""
+    for x in ast.walk(v):
+        if isinstance(x, (ast.Name, ast.BinOp, ast.UnaryOp, ast.Add, ast.Sub, ast.Mult, ast.USub, ast.UAdd, ast.Load)):
+            continue
+        if isinstance(x, ast.Constant) and isinstance(x.value, (int, float)) and not isinstance(x.value, bool):
+            continue
+        if isinstance(x, ast.Call) and isinstance(x.func, ast.Name) and x.func.id in _TRANSPARENT and len(x.args) == 1 and not x.keywords:
+            continue
+        return False
+    return True
+
+
+class _Prop(ast.NodeTransformer):
+    """Copy propagation inside a branch condition: a local bound once to a simple value (`period = target_update_frequency`,
+    `t = step + 1`) whose operands are unchanged since is replaced by that value, so that guards are compared by what they
+    test and not by the names of temporaries."""
+
+    def __init__(self, cfg, at, depth=0):
+        self.cfg, self.at, self.depth = cfg, at, depth
+
+    def visit_Name(self, n):
+        if not isinstance(n.ctx, ast.Load) or self.depth > 4 or n.id in _TRANSPARENT:
+            return n
+        ds = self.cfg.defs_of(self.at, n.id)
+        if len(ds) != 1 or ds[0].kind != "assign" or ds[0].value is None or not _simple_value(ds[0].value):
+            return n
+        rhs = ds[0].value
+        names = {x.id for x in ast.walk(rhs) if isinstance(x, ast.Name)}
+        rd, out = self.cfg.reaching(), self.cfg.reaching_out()[ds[0].node]
+        if n.id in names or not all(rd[self.at].get(nm) == out.get(nm) for nm in names):
+            return n
+        from ..expand import clone
+        return _Prop(self.cfg, ds[0].node, self.depth + 1).visit(clone(rhs))
+
+
+def _split_max(nf, sc, e):
+    """`max(a, b) <= x` is `a <= x and b <= x` (likewise <, and x >= / > max(a, b))."""
+    if not (isinstance(e, ast.Compare) and len(e.ops) == 1):
+        return [e]
+    op, l, r = e.ops[0], e.left, e.comparators[0]
+
+    def is_max(x):
+        return isinstance(x, ast.Call) and not x.keywords and len(x.args) >= 2 and not any(isinstance(a, ast.Starred) for a in x.args) \
+            and isinstance(x.func, (ast.Name, ast.Attribute)) and (nf.libop(sc.mi, x.func) in ("max", "maximum") or (isinstance(x.func, ast.Name) and x.func.id == "max" and nf.repo.resolve_expr(sc.mi, x.func) in (None, "builtins.max", "max")))
+    if isinstance(op, (ast.Lt, ast.LtE)) and is_max(l):
+        return [ast.Compare(left=a, ops=[op], comparators=[r]) for a in l.args]
+    if isinstance(op, (ast.Gt, ast.GtE)) and is_max(r):
+        return [ast.Compare(left=l, ops=[op], comparators=[a]) for a in r.args]
+    return [e]
+
+
+def _repo_result_name(nf, sc, cfg, name, at):
+    rp = result_position(cfg, name, at)
+    if rp is not None and isinstance(rp[0].func, (ast.Name, ast.Attribute)):
+        fq = nf.repo.resolve_expr(sc.mi, rp[0].func)
+        if fq and fq.startswith(nf.repo.PKG + "."):
+            return f"{fq.rsplit('.', 1)[1]}()[{rp[1]}]"
+    return None
+
+
 def _lit_canon(nf, sc, cfg, txt, truth, at):
-    """Canonical text of a branch literal, counter-agnostic normalisations applied."""
+    """Canonical texts of a branch literal (a list: `max(a, b) <= x` yields two), counter-agnostic normalisations applied."""
     try:
         e = ast.parse(txt, mode="eval").body
     except SyntaxError:
-        return f"{'' if truth else '!'}{txt}"
+        return [f"{'' if truth else '!'}{txt}"]
     if isinstance(e, ast.Name):
         # a flag unpacked from the result of a repo function is named by its origin (callee, position), not by the local name
-        rp = result_position(cfg, e.id, at)
-        if rp is not None and isinstance(rp[0].func, (ast.Name, ast.Attribute)):
-            fq = nf.repo.resolve_expr(sc.mi, rp[0].func)
-            if fq and fq.startswith(nf.repo.PKG + "."):
-                c = f"{fq.rsplit('.', 1)[1]}()[{rp[1]}]"
-                return c if truth else f"not({c})"
+        c = _repo_result_name(nf, sc, cfg, e.id, at)
+        if c:
+            return [c if truth else f"not({c})"]
+    if isinstance(e, ast.BoolOp) and any(isinstance(v, ast.Name) and _repo_result_name(nf, sc, cfg, v.id, at) for v in e.values):
+        # operands that are flags returned by repo functions keep their origin name inside `a or b` as well
+        parts = []
+        for v in e.values:
+            sub = _lit_canon(nf, sc, cfg, ast.unparse(v), True, at)
+            parts.append(sub[0] if len(sub) == 1 else "and(" + ", ".join(sorted(sub)) + ")")
+        c = ("and(" if isinstance(e.op, ast.And) else "or(") + ", ".join(sorted(parts)) + ")"
+        return [c if truth else f"not({c})"]
+    e = ast.fix_missing_locations(_Prop(cfg, at).visit(e))
     # truthiness of `x % y`
     if isinstance(e, ast.BinOp) and isinstance(e.op, ast.Mod):
         p = nf.poly(e, sc, at).canon()
-        return f"Eq(0, {p})" if not truth else f"NotEq(0, {p})"
+        return [f"Eq(0, {p})" if not truth else f"NotEq(0, {p})"]
     if isinstance(e, ast.Compare) and len(e.ops) == 1 and not truth:
         neg = {ast.Lt: ast.GtE, ast.LtE: ast.Gt, ast.Gt: ast.LtE, ast.GtE: ast.Lt, ast.Eq: ast.NotEq, ast.NotEq: ast.Eq, ast.Is: ast.IsNot, ast.IsNot: ast.Is}
         k = type(e.ops[0])
         if k in neg:
             e = ast.Compare(left=e.left, ops=[neg[k]()], comparators=e.comparators)
             truth = True
-    c = nf.poly(e, sc, at).canon()
-    return c if truth else f"not({c})"
+    if truth:
+        return [nf.poly(x, sc, at).canon() for x in _split_max(nf, sc, e)]
+    return [f"not({nf.poly(e, sc, at).canon()})"]
+
+
+def _int_alternative(nf, g):
+    """The same inequality over integers with the constant moved (`a < b + 1` is `a <= b`): [text] or []."""
+    m = nf.meta.get(g)
+    if not m or m.get("fn") not in ("Lt", "LtE") or len(m.get("args", [])) != 2:
+        return []
+    a, b = m["args"]
+    d = b - a - Poly.const(1 if m["fn"] == "Lt" else 0)         # d >= 0
+    k = d.terms.get((), 0)
+    if k.denominator != 1 or any(c.denominator != 1 for c in d.terms.values()):
+        return []
+    rest = d - Poly.const(k)
+    pos = Poly({mo: c for mo, c in rest.terms.items() if c > 0})
+    neg = Poly({mo: -c for mo, c in rest.terms.items() if c < 0})
+    if k == -1:
+        t = f"Lt({neg.canon()}, {pos.canon()})"
+    elif k < -1:
+        t = f"Lt({(neg + Poly.const(-k - 1)).canon()}, {pos.canon()})"
+    else:
+        t = f"LtE({neg.canon()}, {(pos + Poly.const(k)).canon()})"
+    return [t] if t != g else []
 
 
 def _guards(nf, fn, cfg, nid, qual):
@@ -174,7 +272,7 @@ def _guards(nf, fn, cfg, nid, qual):
                 # represented by the expansion alone: the alias adds no condition
                 if txt.isidentifier() and cfg._expand_name(ast.Name(id=txt, ctx=ast.Load()), b) is not None:
                     continue
-                out.append(_lit_canon(nf, sc, cfg, txt, truth, b))
+                out += _lit_canon(nf, sc, cfg, txt, truth, b)
     # flow-based supplement: `if <not due>: return ...` before the update - a dominating branch from only one arm of which the
     # update is reachable contributes its condition just like an enclosing `if`
     syntactic = {b for b, _ in cfg.control_deps(nid)}
@@ -192,18 +290,18 @@ def _guards(nf, fn, cfg, nid, qual):
         for txt, truth in cfg._lits(bn.ast.test, lab, bn.id):
             if txt.isidentifier() and cfg._expand_name(ast.Name(id=txt, ctx=ast.Load()), bn.id) is not None:
                 continue
-            out.append(_lit_canon(nf, sc, cfg, txt, truth, bn.id))
-    # de-duplicate, drop logger / None tests
+            out += _lit_canon(nf, sc, cfg, txt, truth, bn.id)
+    # de-duplicate, drop conditions that folded to true
     res = []
     for g in out:
-        if "logger" in g or g in res or g in ("True", "not(False)", "1", "not(0)"):
+        if g in res or g in ("True", "not(False)", "1", "not(0)"):
             continue
         res.append(g)
     return res
 
 
 def _match(lit: str, pat: str) -> bool:
-    rx = "^" + pat.replace("C", r"[A-Za-z_][A-Za-z_0-9]*") + "$"
+    rx = "^" + re.sub(r"\bC\b", lambda m: r"[A-Za-z_][A-Za-z_0-9]*", pat) + "$"
     return re.match(rx, lit) is not None
 
 
@@ -215,250 +313,560 @@ def run(ck, repo: Repo, tier: str):
 
     # ---------------- R1: helper bodies ---------------------------------------------------------
     for hq, kind in HELPERS.items():
-        fn = repo.func(hq)
-        mi = fn._module
-        cfg = nf.cfg_of(fn)
-        sc = Scope(cfg, mi, {}, hq)
-        pp = positional_params(fn)
-        ck.need(pp[:2] == ["net", "target_net"] and (kind == "hard" or pp[2:3] == ["tau"]), f"{hq}: signature changed (anchor vanished): {pp}")
-        ups = []
-        for n in cfg.nodes:
-            if n.ast is None or n.kind != "stmt":
-                continue
-            for c in ast.walk(n.ast):
-                if isinstance(c, ast.Call) and repo.resolve_expr(mi, c.func) == "flax.nnx.update":
-                    ups.append((n.id, c))
-        ck.ob("R1-helper-law", hq, "single-update", len(ups) == 1, f"{len(ups)} nnx.update call(s)", "" if len(ups) == 1 else "helper must perform exactly one nnx.update", loc(mi, fn))
-        for nid, c in ups:
-            tgt = nf.poly(c.args[0], sc, nid).canon() if c.args else "?"
-            val = nf.poly(c.args[1], sc, nid) if len(c.args) > 1 else Poly.atom("?")
-            ok_t = tgt == "target_net"
-            ck.ob("R1-helper-law", hq, "writes-target", ok_t, f"nnx.update({tgt}, ...)", "" if ok_t else f"the helper writes `{tgt}`, not the target network (online network must stay unchanged)", loc(mi, c))
-            v = val.canon()
-            if kind == "hard":
-                ok_v = v == "state(net)"
-                ck.ob("R1-helper-law", hq, "update-value", ok_v, f"value = {v}", "" if ok_v else "expected `state(net)`: wrong source", loc(mi, c))
-                continue
-            # soft: leaf-wise  tau * state(net) + (1 - tau) * state(target_net), written with optax.incremental_update (arguments by
-            # signature) or as a tree map whose leaf function normalises to that polynomial
-            ve = c.args[1]
-            vn = nid
-            for _ in range(4):
-                if isinstance(ve, ast.Name):
-                    ds = cfg.defs_of(vn, ve.id)
-                    if len(ds) == 1 and ds[0].kind == "assign":
-                        ve, vn = ds[0].value, ds[0].node
-                        continue
-                break
-            A, B, T = Poly.atom("state(net)"), Poly.atom("state(target_net)"), Poly.atom("tau")
-            want_p = T * A + (Poly.const(1) - T) * B
-            fq = repo.resolve_expr(mi, ve.func) if isinstance(ve, ast.Call) and isinstance(ve.func, (ast.Name, ast.Attribute)) else None
-            if fq == "optax.incremental_update":
-                b = {}
-                for pname, a_ in zip(("new_tensors", "old_tensors", "step_size"), ve.args):
-                    b[pname] = a_
-                for kw in ve.keywords:
-                    if kw.arg:
-                        b[kw.arg] = kw.value
-                got = {k: nf.poly(x, sc, vn).canon() for k, x in b.items()}
-                ok_v = got == {"new_tensors": "state(net)", "old_tensors": "state(target_net)", "step_size": "tau"}
-                shown = f"incremental_update(new={got.get('new_tensors')}, old={got.get('old_tensors')}, step={got.get('step_size')})"
-            elif fq in TREE_MAPS:
-                trees = [a_ for a_ in ve.args[1:] if not isinstance(a_, ast.Starred)]
-                ck.need(len(trees) == len(ve.args) - 1 and ve.args, f"{hq}: tree map with starred arguments")
-                leaf = leaf_application(repo, mi, ve.args[0], trees, cfg, vn)
-                got_p = nf.poly(leaf, sc, vn)
-                ok_v = got_p == want_p
-                shown = f"leaf-wise {got_p.canon()}"
-                if not ok_v and not (set(got_p.atoms()) <= {"state(net)", "state(target_net)", "tau"}):
-                    raise AnalysisError(f"{hq}: soft update computes `{got_p.canon()[:120]}` per leaf (unrecognised form)")
-            else:
-                p_direct = nf.poly(ve, sc, vn)
-                if p_direct == want_p:
-                    ok_v, shown = True, p_direct.canon()
-                elif set(p_direct.atoms()) <= {"state(net)", "state(target_net)", "tau"} and p_direct.atoms():
-                    ok_v, shown = False, p_direct.canon()
-                else:
-                    raise AnalysisError(f"{hq}: the value written to the target `{v[:120]}` is not a recognised Polyak form")
-            ck.ob("R1-helper-law", hq, "update-value", ok_v, f"value = {shown}", "" if ok_v else f"expected leaf-wise `{want_p.canon()}`: wrong source, swapped roles or modified step size", loc(mi, c))
-        # the path-independent check that `tau` is not redefined / net not written is contained in the normal form above
-        uncond = all(not cfg.control_deps(nid) for nid, _ in ups)
-        ck.ob("R1-helper-law", hq, "unconditional", uncond, "nnx.update is executed on every call", "" if uncond else "the update is skipped on some path", loc(mi, fn))
+        ck.guard(_r1_helper, ck, repo, nf, hq, kind)
     if tier == "thorough":
         _optax_oracle(ck, nf)
 
     # ---------------- per routine: R2 / R3 / R4 / R5 ---------------------------------------------------
-    n_calls = 0
-    for q, (kind, required, allowed, n_expected) in CADENCE.items():
-        fn = repo.func(q)
-        mi = fn._module
-        cfg = res.cfg_of(fn)
-        calls = _helper_calls(repo, res, fn, cfg)
-        if q.endswith("train_td7"):
-            calls = [c for c in calls]
-        n_calls += len(calls)
-        if len(calls) != n_expected:
-            # target updates that moved between a routine and its step function, or that go through an object's method / a helper
-            # that could not be expanded, cannot be attributed to the documented cadence table: undecided, not a violation
-            group = [g for g in CALLER_GROUPS if q in g]
-            if group:
-                tot = sum(len(_helper_calls(repo, res, repo.func(x), res.cfg_of(repo.func(x)))) for x in group[0])
-                if tot == sum(CADENCE[x][3] for x in group[0]):
-                    raise AnalysisError(f"{q}: the target updates are distributed differently over {[x.rsplit('.', 1)[1] for x in group[0]]} than documented (unrecognised form)")
-            if len(calls) < n_expected and (_foreign_helper_sites(repo, res) or any(cq_.startswith(q) or True for _c, cq_ in getattr(repo, "expand_failed", []) if _c == q)):
-                raise AnalysisError(f"{q}: {len(calls)} of {n_expected} documented target updates are visible; others go through code that cannot be attributed (unrecognised form)")
-            if len(calls) < n_expected:
-                looped = []
-                for c_ in ast.walk(fn):
-                    if isinstance(c_, ast.Call) and isinstance(c_.func, (ast.Name, ast.Attribute)) and (repo.resolve_expr(mi, c_.func) or "").endswith(("nnx.update", "target_net_update")):
-                        p_ = getattr(c_, "_parent", None)
-                        while p_ is not None and p_ is not fn:
-                            tv_ = set()
-                            if isinstance(p_, ast.For):
-                                tv_ = {x_.id for x_ in ast.walk(p_.target) if isinstance(x_, ast.Name)}
-                            elif isinstance(p_, (ast.ListComp, ast.GeneratorExp, ast.DictComp, ast.SetComp)):
-                                tv_ = {x_.id for g_ in p_.generators for x_ in ast.walk(g_.target) if isinstance(x_, ast.Name)}
-                            if tv_ & {x_.id for a_ in c_.args for x_ in ast.walk(a_) if isinstance(x_, ast.Name)}:
-                                looped.append(c_)      # the updated objects are the loop's variables
-                                break
-                            p_ = getattr(p_, "_parent", None)
-                if looped:
-                    raise AnalysisError(f"{q}: `{short(looped[0], 50)}` runs inside a loop: one call site serves several (online, target) pairs, which cannot be matched with the {n_expected} documented updates one by one (unrecognised form)")
-                raw = [c_ for c_ in ast.walk(fn) if isinstance(c_, ast.Call) and isinstance(c_.func, (ast.Name, ast.Attribute)) and repo.resolve_expr(mi, c_.func) == "flax.nnx.update"]
-                if len(raw) > len(calls):
-                    raise AnalysisError(f"{q}: {len(calls)} of {n_expected} documented target updates are visible as helper calls, but {len(raw)} raw nnx.update calls are present (written out or expanded updates: not attributed)")
-        ck.ob("R4-cadence", q, "helper-count", len(calls) == n_expected, f"{len(calls)} target-update call(s), documented {n_expected}",
-              "" if len(calls) == n_expected else "a documented target update is missing or an undocumented one was added", loc(mi, fn))
-        if len(calls) != n_expected:
-            continue
-        targets = []
-        for nid, c, k, (oe, te), okey in calls:
-            where = loc(mi, c)
-            label = f"{short(oe, 30)}->{short(te, 30)}"
-            ck.ob("R4-cadence", q, f"kind:{label}", k == kind, f"{k} update {label}", "" if k == kind else f"documented update kind is {kind}", where)
-            o_id = _ident_in_context(idn, res, repo, q, fn, cfg, nid, oe)
-            t_id = _ident_in_context(idn, res, repo, q, fn, cfg, nid, te)
-            targets.append((nid, c, o_id, t_id, oe, te, okey))
-            # R4 guards
-            gs = _guards(nf, fn, cfg, nid, q)
-            missing = [p for p in required if not any(_match(g, p) for g in gs)]
-            extra = [g for g in gs if not any(_match(g, p) for p in required + allowed)]
-            ok = not missing and not extra
-            if not ok:
-                # a guard that is not one of the documented / allowed forms is evidence of a wrong cadence only when it is written over the
-                # cadence parameter itself (e.g. `step % policy_delay == 1`); any other unknown condition leaves the cadence undecided
-                import re as _re
-                pnames = set(positional_params(fn)) | {a_.arg for a_ in fn.args.kwonlyargs}
-                OPS = {"Eq", "NotEq", "Lt", "LtE", "Is", "IsNot", "In", "NotIn", "and", "or", "not", "mod", "None", "True", "False"}
-
-                def name_ok(nm, depth=0):
-                    if nm in OPS or nm in pnames:
-                        return True
-                    ds_ = [d for n_ in cfg.nodes for d in n_.defs if d.name == nm]
-                    if not ds_ or depth > 4:
-                        return nm in ("assess_performance_and_checkpoint",)
-                    for d in ds_:
-                        if d.kind in ("param", "for", "aug", "with"):
-                            continue
-                        if result_position_def(cfg, d) is not None:
-                            continue      # a position of a call's result
-                        if d.kind == "assign" and d.value is not None and not isinstance(d.value, ast.Constant) or (d.kind == "assign" and isinstance(d.value, ast.Constant) and not isinstance(d.value.value, bool)):
-                            v_ = d.value
-                            calls_ok = all(isinstance(c_.func, ast.Name) and c_.func.id in ("max", "min", "int", "len", "abs", "float") for c_ in ast.walk(v_) if isinstance(c_, ast.Call))
-                            if calls_ok and not any(isinstance(x_, (ast.Attribute, ast.Subscript)) for x_ in ast.walk(v_)) \
-                                    and all(name_ok(x_.id, depth + 1) for x_ in ast.walk(v_) if isinstance(x_, ast.Name) and x_.id not in ("max", "min", "int", "len", "abs", "float")):
-                                continue
-                        return False
-                    return True
-
-                def understood(g):
-                    return all(name_ok(nm) for nm in set(_re.findall(r"[A-Za-z_][A-Za-z_0-9]*", g)))
-                unknown = [g for g in extra if not understood(g)]
-                if unknown:
-                    raise AnalysisError(f"{q}: update {label} is guarded by {unknown} (cannot relate to the documented cadence)")
-            why = ""
-            if missing:
-                why = f"not guarded by the documented cadence {missing} (guards: {gs})"
-            elif extra:
-                why = f"additionally guarded by {extra}: documented update points are skipped"
-            ck.ob("R4-cadence", q, f"guard:{label}", ok, f"{label} under {gs}", why, where)
-        # R2 / R3
-        online_ids = [x[2] for x in targets]
-        for nid, c, o_id, t_id, oe, te, okey in targets:
-            where = loc(mi, c)
-            fresh = _is_fresh(t_id)
-            distinct = all(not has_base(t_id, o) and not has_base(o, t_id) for o in online_ids if o != t_id) and o_id != t_id
-            # an object may be target of one copy and source of another (TD7's fixed embedding); it must still not be an *online-trained* object
-            ck.ob("R2-no-alias", q, f"fresh:{short(te, 40)}", fresh, f"target `{short(te, 40)}` = {show(t_id)}",
-                  "" if fresh else f"target object is {show(t_id)}: not a parameter / nnx.clone / constructor over those (may share storage with an online network)", where)
-            # component-wise: no sub-module of the target object is a sub-module of (or is) an online / trained object
-            t_leaves = _leaves_ctx(idn, res, repo, q, fn, cfg, t_id)
-            o_leaves = _leaves_ctx(idn, res, repo, q, fn, cfg, o_id)
-            shared = {x for x in t_leaves for y in o_leaves if has_base(x, y) or has_base(y, x)}
-            ck.ob("R2-no-alias", q, f"components-distinct:{short(te, 40)}", not shared, f"components of target {sorted(show(x) for x in t_leaves)} vs online {sorted(show(x) for x in o_leaves)}",
-                  "" if not shared else f"target and online object share the sub-module(s) {sorted(_stable(show(x)) for x in shared)}: a target update overwrites the online component (and training it changes the target)", where)
-            unfresh = [x for x in t_leaves if not _is_fresh(x)]
-            ck.ob("R2-no-alias", q, f"components-fresh:{short(te, 40)}", not unfresh, f"components of target `{short(te, 40)}`", "" if not unfresh else f"component(s) {sorted(_stable(show(x)) for x in unfresh)} of the target are not parameters / clones", where)
-            ck.ob("R2-no-alias", q, f"distinct:{short(te, 40)}", o_id != t_id and not has_base(t_id, o_id) and not has_base(o_id, t_id),
-                  f"online {show(o_id)} vs target {show(t_id)}", "" if o_id != t_id else "online and target are the same object", where)
-        # R3: other writers of target objects
-        eff.summary(q)
-        trained = []
-        for kind_s, call, path, op in eff.sites.get(q, []):
-            if kind_s.startswith("call ") and kind_s.split(" ", 1)[1] in HELPERS:
-                continue
-            if any(call is hc_ for _n, hc_, _o, _t, _oe, _te, _k in targets):
-                continue      # the hard copy written out (nnx.update(target, nnx.state(online))) is a recognised target update
-            try:
-                nid = cfg.node_of(call).id
-            except KeyError:
-                continue
-            e = _path_expr(path)
-            w_id = _ident_in_context(idn, res, repo, q, fn, cfg, nid, e)
-            trained.append((call, w_id, kind_s))
-            for _, hc, o_id, t_id, oe, te, okey in targets:
-                t_leaves = _leaves_ctx(idn, res, repo, q, fn, cfg, t_id)
-                bad = any(has_base(w_id, x) or has_base(x, w_id) for x in t_leaves | {t_id})
-                if bad and not _is_source_too(t_id, targets):
-                    ck.ob("R3-writers", q, f"writer:{_stable(show(w_id))}", False, f"`{short(call, 60)}` writes {show(w_id)}",
-                          f"a target-role object ({show(t_id)}) is written outside the target-update helpers", loc(mi, call))
-        for _, hc, o_id, t_id, oe, te, okey in targets:
-            ck.ob("R3-writers", q, f"only-helpers:{short(te, 40)}", True, f"{show(t_id)} written by helper only", "", loc(mi, hc))
-            # (online, target) order: the online object must be one that is trained or itself a copy source; the target never trained
-            is_trained_target = any(has_base(w, t_id) or has_base(t_id, w) for _, w, k in trained)
-            is_trained_online = any(has_base(w, o_id) or has_base(o_id, w) for _, w, k in trained) or any(x[3] == o_id for x in targets)
-            okk = not is_trained_target or _is_source_too(t_id, targets)
-            if okk and not (is_trained_online or q.endswith("train_td7")):
-                # no write to the first argument is visible in this routine: that is absence of evidence (the training call may not be
-                # attributable), not evidence of swapped arguments
-                raise AnalysisError(f"{q}: cannot confirm that `{short(oe, 30)}` (copied to `{short(te, 30)}`) is the trained object: no attributable training write")
-            ck.ob("R3-writers", q, f"order:{short(oe, 30)}->{short(te, 30)}", okk and (is_trained_online or q.endswith("train_td7")), f"{short(oe, 30)}->{short(te, 30)}: online={show(o_id)} target={show(t_id)}",
-                  "" if (okk and (is_trained_online or q.endswith('train_td7'))) else "arguments look swapped: the first argument is not the trained (online) object or the second one is trained", loc(mi, hc))
-        # R5 chained copies
-        for (n1, c1, o1, t1, oe1, te1, k1) in targets:
-            for (n2, c2, o2, t2, oe2, te2, k2) in targets:
-                if k1 == k2:
-                    continue
-                if t1 == o2 and cfg.control_deps(n1) == cfg.control_deps(n2):
-                    # copy 2 reads what copy 1 overwrites: copy 2 must come first
-                    ok = k2 < k1
-                    ck.ob("R5-copy-order", q, f"{short(oe2, 30)}-before-overwrite", ok, f"{short(oe2, 30)}->{short(te2, 30)} before {short(oe1, 30)}->{short(te1, 30)}",
-                          "" if ok else "the object is overwritten before its previous value is copied to its own target: both end up identical (the one-period lag is lost)", loc(mi, c1))
-    ck.floor("helper-call-sites", n_calls, 10)
+    state = {"n_calls": 0, "short": []}
+    for q in CADENCE:
+        n_inc = len(ck.incomplete)
+        ck.guard(_routine, ck, repo, res, nf, eff, idn, q, state)
+        if len(ck.incomplete) > n_inc and q.rsplit(".", 1)[1] not in state["short"]:
+            state["short"].append(q.rsplit(".", 1)[1])
+    ck.floor("helper-call-sites", state["n_calls"], 10)
     # every helper call site in the package is covered by the table
     covered = set(CADENCE)
     transparent = repo.transparent_helpers()
     for qual, f2, mi2 in repo.all_functions():
         if qual in covered or qual in HELPERS or "<locals>" in qual or qual in transparent:
             continue
-        c2 = None
         for n in ast.walk(f2):
             if isinstance(n, ast.Call) and isinstance(n.func, (ast.Name, ast.Attribute)):
                 r = repo.resolve_expr(mi2, n.func)
                 if r in HELPERS and qual not in _KNOWN():
                     raise AnalysisError(f"{qual}: a new function / method calls a target-update helper and is not expanded at its call sites (cannot attribute the update to a cadence)")
                 if r in HELPERS:
-                    ck.ob("R4-cadence", qual, "unregistered-call-site", False, short(n, 70), "target-update helper called from a routine with no documented cadence entry", loc(mi2, n))
+                    if state["short"]:
+                        # an update that is missing from (or could not be read in) a documented routine may have moved here: not an additional one
+                        raise AnalysisError(f"{qual}: calls a target-update helper while {state['short']} could not be read completely (cannot attribute the update to a cadence)")
+                    ck.ob("R4-cadence", qual, "unregistered-call-site", False, short(n, 70), "every documented target update is in place and this routine, which has no documented cadence entry, performs another one", loc(mi2, n))
+
+
+def _recorded_renames(q, fn):
+    """{recorded parameter name: current name} when the current signature is the recorded one with some parameters renamed in place
+    (parameters added later are ignored); {} otherwise."""
+    from ..specialise import load_signatures
+    rec = load_signatures().get(q) or []
+    cur = param_names(fn)
+    gone = [r for r in rec if r not in cur]
+    if not gone:
+        return {}
+    new = [c for c in cur if c not in rec]
+    for drop in ([], new[len(gone):], new[:len(new) - len(gone)]):
+        cur2 = [c for c in cur if c not in drop]
+        if len(cur2) == len(rec) and all(r == c or (r in gone and c in new) for r, c in zip(rec, cur2)):
+            return {r: c for r, c in zip(rec, cur2) if r != c}
+    return {}
+
+
+def _pattern_for(pat, ren):
+    return re.sub(r"[A-Za-z_][A-Za-z_0-9]*", lambda m: ren.get(m.group(0), m.group(0)), pat) if ren else pat
+
+
+_CADENCE_LIT = re.compile(r"^(Eq|NotEq)\((-?\d+), mod\(([A-Za-z_][A-Za-z_0-9]*), ([A-Za-z_][A-Za-z_0-9]*)\)\)$")
+_IDENT = r"[A-Za-z_][A-Za-z_0-9]*"
+
+
+def _split_args(inner: str):
+    out, depth, cur = [], 0, ""
+    for ch in inner:
+        if ch in "([{":
+            depth += 1
+        elif ch in ")]}":
+            depth -= 1
+        if ch == "," and depth == 0:
+            out.append(cur.strip())
+            cur = ""
+        else:
+            cur += ch
+    if cur.strip():
+        out.append(cur.strip())
+    return out
+
+
+def _routine(ck, repo, res, nf, eff, idn, q, state):
+    kind, required, allowed, n_expected = CADENCE[q]
+    fn = repo.func(q)
+    mi = fn._module
+    cfg = res.cfg_of(fn)
+    pnames = set(param_names(fn))
+    ren = _recorded_renames(q, fn)
+    required = [_pattern_for(p, ren) for p in required]
+    allowed = [_pattern_for(p, ren) for p in allowed]
+    from ..specialise import load_signatures
+    rec_sig = set(load_signatures().get(q) or [])
+    doc_params = {t for p in required for t in re.findall(_IDENT, p) if t in pnames or t in rec_sig or ren.get(t)} - {"C", "Eq", "mod"}
+    calls = _helper_calls(repo, res, fn, cfg)
+    state["n_calls"] += len(calls)
+    if len(calls) < n_expected:
+        state["short"].append(q.rsplit(".", 1)[1])
+        # target updates that moved between a routine and its step function, or that go through an object's method / a helper
+        # that could not be expanded, cannot be attributed to the documented cadence table: undecided, not a violation
+        group = [g for g in CALLER_GROUPS if q in g]
+        if group:
+            tot = sum(len(_helper_calls(repo, res, repo.func(x), res.cfg_of(repo.func(x)))) for x in group[0])
+            if tot >= sum(CADENCE[x][3] for x in group[0]):
+                raise AnalysisError(f"{q}: the target updates are distributed differently over {[x.rsplit('.', 1)[1] for x in group[0]]} than documented (unrecognised form)")
+        if _foreign_helper_sites(repo, res) or _known_unregistered_sites(repo) or any(_c == q for _c, _cq in getattr(repo, "expand_failed", [])):
+            raise AnalysisError(f"{q}: {len(calls)} of {n_expected} documented target updates are visible; others go through code that cannot be attributed (unrecognised form)")
+        looped = []
+        for c_ in ast.walk(fn):
+            if isinstance(c_, ast.Call) and isinstance(c_.func, (ast.Name, ast.Attribute)) and ((repo.resolve_expr(mi, c_.func) or "") == "flax.nnx.update" or (repo.resolve_expr(mi, c_.func) or "") in HELPERS):
+                p_ = getattr(c_, "_parent", None)
+                while p_ is not None and p_ is not fn:
+                    tv_ = set()
+                    if isinstance(p_, ast.For):
+                        tv_ = {x_.id for x_ in ast.walk(p_.target) if isinstance(x_, ast.Name)}
+                    elif isinstance(p_, (ast.ListComp, ast.GeneratorExp, ast.DictComp, ast.SetComp)):
+                        tv_ = {x_.id for g_ in p_.generators for x_ in ast.walk(g_.target) if isinstance(x_, ast.Name)}
+                    if tv_ & {x_.id for a_ in list(c_.args) + [k_.value for k_ in c_.keywords] for x_ in ast.walk(a_) if isinstance(x_, ast.Name)}:
+                        looped.append(c_)      # the updated objects are the loop's variables
+                        break
+                    p_ = getattr(p_, "_parent", None)
+        if looped:
+            raise AnalysisError(f"{q}: `{short(looped[0], 50)}` runs inside a loop: one call site serves several (online, target) pairs, which cannot be matched with the {n_expected} documented updates one by one (unrecognised form)")
+        raw = [c_ for c_ in ast.walk(fn) if isinstance(c_, ast.Call) and isinstance(c_.func, (ast.Name, ast.Attribute)) and repo.resolve_expr(mi, c_.func) in ("flax.nnx.update", "optax.incremental_update", "flax.nnx.merge")]
+        if len(raw) > len([c_ for c_ in calls if HELPERS.get((res.resolve(c_[1].func, mi, cfg, c_[0]) or _NoTarget).qual) is None]):
+            raise AnalysisError(f"{q}: {len(calls)} of {n_expected} documented target updates are visible as helper calls, but {len(raw)} raw nnx.update / incremental_update / merge calls are present (written out or expanded updates: not attributed)")
+        # closed world: no other function of the package, no raw update and no unexpanded callee can perform the missing update
+        ck.ob("R4-cadence", q, "helper-count", False, f"{len(calls)} target-update call(s), documented {n_expected}", "a documented target update is missing (and nothing else in the package performs it)", loc(mi, fn))
+        return
+    surplus = len(calls) > n_expected
+    if not surplus:
+        ck.ob("R4-cadence", q, "helper-count", True, f"{len(calls)} target-update call(s), documented {n_expected}", "", loc(mi, fn))
+    targets, guarded = [], []
+    in_loop = [bool(cfg.enclosing_loops(nid)) for nid, *_ in calls]
+    for i_, (nid, c, k, (oe, te), okey) in enumerate(calls):
+        if surplus and any(in_loop) and not in_loop[i_]:
+            continue      # a copy before / after the training loop (initialisation of a target) is not one of the updates *during* training:
+            #               it is not measured against the cadence (the routine stays undecided, see below)
+        where = loc(mi, c)
+        label = f"{short(oe, 30)}->{short(te, 30)}"
+        if k != kind and k == "soft" and _soft_with_unit_step(repo, res, mi, cfg, nid, c):
+            raise AnalysisError(f"{q}: update {label} is a soft update with step size 1 where a hard copy is documented (equal up to rounding: unrecognised form)")
+        ck.ob("R4-cadence", q, f"kind:{label}", k == kind, f"{k} update {label}", "" if k == kind else f"documented update kind is {kind}", where)
+        o_id = _ident_in_context(idn, res, repo, q, fn, cfg, nid, oe)
+        t_id = _ident_in_context(idn, res, repo, q, fn, cfg, nid, te)
+        targets.append((nid, c, o_id, t_id, oe, te, okey))
+        # R4 guards
+        p_ = getattr(c, "_parent", None)
+        while p_ is not None and not isinstance(p_, ast.stmt):
+            if isinstance(p_, (ast.IfExp, ast.BoolOp, ast.Lambda, ast.ListComp, ast.SetComp, ast.DictComp, ast.GeneratorExp)):
+                raise AnalysisError(f"{q}: update {label} is evaluated inside `{short(p_, 60)}`: a condition that is not a branch of the control flow (unrecognised form)")
+            p_ = getattr(p_, "_parent", None)
+        guarded.append((nid, c, k, label, where, o_id, t_id, _guards(nf, fn, cfg, nid, q)))
+    if surplus:
+        # the same update written on both arms of a branch (`if x: update(a, b) ... else: update(a, b)`) runs whatever x is: the two
+        # guard sets, which differ in one literal and its negation, stand for their common part
+        from ..sem import _negate
+        for i, gi in enumerate(guarded):
+            for j, gj in enumerate(guarded):
+                if i < j and gi[2] == gj[2] and (gi[5], gi[6]) == (gj[5], gj[6]) and gi[0] != gj[0]:
+                    common = [g for g in gi[7] if g in gj[7]]
+                    d1, d2 = [g for g in gi[7] if g not in common], [g for g in gj[7] if g not in common]
+                    if len(d1) == 1 and len(d2) == 1 and (_negate(d1[0]) == d2[0] or _negate(d2[0]) == d1[0]):
+                        guarded[i], guarded[j] = gi[:7] + (common,), gj[:7] + (common,)
+
+    def matches(g, pats):
+        return any(_match(t, p) for t in [g] + _int_alternative(nf, g) for p in pats)
+    for nid, c, k, label, where, o_id, t_id, gs in guarded:
+        missing = [p for p in required if not any(matches(g, [p]) for g in gs)]
+        extra = [g for g in gs if not matches(g, required + allowed)]
+        ok = not missing and not extra
+        why = ""
+        if not ok:
+            if doc_params - pnames:
+                raise AnalysisError(f"{q}: the documented cadence parameter(s) {sorted(doc_params - pnames)} are not parameters any more (renamed?): update {label} under {gs} cannot be compared (unrecognised form)")
+            why = _cadence_evidence(repo, nf, fn, cfg, mi, q, nid, label, gs, missing, extra, required, pnames, doc_params, matches)
+        ck.ob("R4-cadence", q, f"guard:{label}", ok, f"{label} under {gs}", why, where)
+    if surplus:
+        for i, (n1, c1, o1, t1, oe1, te1, k1) in enumerate(targets):
+            for (n2, c2, o2, t2, oe2, te2, k2) in targets[i + 1:]:
+                if k1 != k2 and n1 != n2 and (o1, t1) == (o2, t2) and _is_fresh(o1) and _is_fresh(t1) and cfg.control_deps(n1) == cfg.control_deps(n2) \
+                        and HELPERS.get((res.resolve(c1.func, mi, cfg, n1) or _NoTarget).qual) == "soft" and HELPERS.get((res.resolve(c2.func, mi, cfg, n2) or _NoTarget).qual) == "soft":
+                    ck.ob("R4-cadence", q, "helper-count", False, f"`{short(c1, 50)}` at lines {c1.lineno} and {c2.lineno}", "the same soft update is applied twice at one update point (same objects, same block): the step is not tau any more", loc(mi, c2))
+        # more update calls than documented: each was checked against the documented cadence above (an added update point shows there);
+        # which of them are the documented ones (or whether one documented update was split into several) cannot be said
+        raise AnalysisError(f"{q}: {len(calls)} target-update calls, documented {n_expected}: they cannot be matched with the documented updates one by one (unrecognised form)")
+    # R2 / R3
+    for nid, c, o_id, t_id, oe, te, okey in targets:
+        where = loc(mi, c)
+        unread = [x for x in _leaves_ctx(idn, res, repo, q, fn, cfg, t_id) | {t_id} if not _is_fresh(x)]
+        if unread:
+            # provenance that the identity analysis cannot read (a call result, a merge of unknown values ...) is not evidence of sharing
+            raise AnalysisError(f"{q}: target object `{short(te, 40)}` is {sorted(_stable(show(x)) for x in unread)}: where it comes from cannot be read (unrecognised form)")
+        # an object may be target of one copy and source of another (TD7's fixed embedding); it must still not be an *online-trained* object
+        ck.ob("R2-no-alias", q, f"fresh:{short(te, 40)}", True, f"target `{short(te, 40)}` = {show(t_id)}", "", where)
+        # component-wise: no sub-module of the target object is a sub-module of (or is) an online / trained object
+        t_leaves = _leaves_ctx(idn, res, repo, q, fn, cfg, t_id)
+        o_leaves = _leaves_ctx(idn, res, repo, q, fn, cfg, o_id)
+        shared = {x for x in t_leaves for y in o_leaves if has_base(x, y) or has_base(y, x)}
+        ck.ob("R2-no-alias", q, f"components-distinct:{short(te, 40)}", not shared, f"components of target {sorted(show(x) for x in t_leaves)} vs online {sorted(show(x) for x in o_leaves)}",
+              "" if not shared else f"target and online object share the sub-module(s) {sorted(_stable(show(x)) for x in shared)}: a target update overwrites the online component (and training it changes the target)", where)
+        ck.ob("R2-no-alias", q, f"components-fresh:{short(te, 40)}", True, f"components of target `{short(te, 40)}`", "", where)
+        same = o_id == t_id or has_base(t_id, o_id) or has_base(o_id, t_id)
+        ck.ob("R2-no-alias", q, f"distinct:{short(te, 40)}", not same, f"online {show(o_id)} vs target {show(t_id)}", "" if not same else "online and target are (or may be) the same object, or one is a sub-module of the other", where)
+    # R3: other writers of target objects
+    eff.summary(q)
+    trained = []
+    for kind_s, call, path, op in eff.sites.get(q, []):
+        if kind_s.startswith("call ") and kind_s.split(" ", 1)[1] in HELPERS:
+            continue
+        if any(call is hc_ for _n, hc_, _o, _t, _oe, _te, _k in targets):
+            continue      # the hard copy written out (nnx.update(target, nnx.state(online))) is a recognised target update
+        try:
+            nid = cfg.node_of(call).id
+        except KeyError:
+            continue
+        e = _path_expr(path)
+        w_id = _ident_in_context(idn, res, repo, q, fn, cfg, nid, e)
+        trained.append((call, w_id, kind_s))
+        for _, hc, o_id, t_id, oe, te, okey in targets:
+            t_leaves = _leaves_ctx(idn, res, repo, q, fn, cfg, t_id)
+            bad = any(has_base(w_id, x) or has_base(x, w_id) for x in t_leaves | {t_id})
+            if bad and not _is_source_too(t_id, targets):
+                ck.ob("R3-writers", q, f"writer:{_stable(show(w_id))}", False, f"`{short(call, 60)}` writes {show(w_id)}",
+                      f"a target-role object ({show(t_id)}) is written outside the target-update helpers", loc(mi, call))
+    for _, hc, o_id, t_id, oe, te, okey in targets:
+        ck.ob("R3-writers", q, f"only-helpers:{short(te, 40)}", True, f"{show(t_id)} written by helper only", "", loc(mi, hc))
+        # (online, target) order: the online object must be one that is trained or itself a copy source; the target never trained
+        is_trained_target = any(has_base(w, t_id) or has_base(t_id, w) for _, w, k in trained)
+        is_trained_online = any(has_base(w, o_id) or has_base(o_id, w) for _, w, k in trained) or any(x[3] == o_id for x in targets)
+        okk = not is_trained_target or _is_source_too(t_id, targets)
+        if okk and not (is_trained_online or q.endswith("train_td7")):
+            # no write to the first argument is visible in this routine: that is absence of evidence (the training call may not be
+            # attributable), not evidence of swapped arguments
+            raise AnalysisError(f"{q}: cannot confirm that `{short(oe, 30)}` (copied to `{short(te, 30)}`) is the trained object: no attributable training write")
+        ck.ob("R3-writers", q, f"order:{short(oe, 30)}->{short(te, 30)}", okk, f"{short(oe, 30)}->{short(te, 30)}: online={show(o_id)} target={show(t_id)}",
+              "" if okk else "arguments look swapped: the second argument (the object that is overwritten) is trained in this routine", loc(mi, hc))
+    # R5 chained copies
+    for (n1, c1, o1, t1, oe1, te1, k1) in targets:
+        for (n2, c2, o2, t2, oe2, te2, k2) in targets:
+            if k1 == k2:
+                continue
+            if t1 == o2 and cfg.control_deps(n1) == cfg.control_deps(n2):
+                # copy 2 reads what copy 1 overwrites: copy 2 must come first
+                ok = k2 < k1
+                ck.ob("R5-copy-order", q, f"{short(oe2, 30)}-before-overwrite", ok, f"{short(oe2, 30)}->{short(te2, 30)} before {short(oe1, 30)}->{short(te1, 30)}",
+                      "" if ok else "the object is overwritten before its previous value is copied to its own target: both end up identical (the one-period lag is lost)", loc(mi, c1))
+
+
+class _NoTarget:
+    qual = None
+
+
+def _known_unregistered_sites(repo):
+    """Functions of the recorded surface outside the cadence table that call a target-update helper (an update may have moved there)."""
+    out = []
+    transparent = repo.transparent_helpers()
+    for qual, f2, mi2 in repo.all_functions():
+        if qual in CADENCE or qual in HELPERS or "<locals>" in qual or qual in transparent or qual not in _KNOWN():
+            continue
+        if any(isinstance(n, ast.Call) and isinstance(n.func, (ast.Name, ast.Attribute)) and repo.resolve_expr(mi2, n.func) in HELPERS for n in ast.walk(f2)):
+            out.append(qual)
+    return out
+
+
+def _soft_with_unit_step(repo, res, mi, cfg, nid, c):
+    t = res.resolve(c.func, mi, cfg, nid)
+    if not (t and t.qual in HELPERS):
+        return False
+    hf = repo.func(t.qual)
+    b = bind_call(hf, c, list(t.prefix))
+    for kw, v in (getattr(t, "kwargs", {}) or {}).items():
+        b.setdefault(kw, v)
+    op = _ordered_params(hf)
+    v = b.get(op[2]) if len(op) > 2 else None
+    return isinstance(v, ast.Constant) and not isinstance(v.value, bool) and isinstance(v.value, (int, float)) and v.value == 1
+
+
+def _cadence_evidence(repo, nf, fn, cfg, mi, q, nid, label, gs, missing, extra, required, pnames, doc_params, matches):
+    """Why a guard set that differs from the documented one is a different cadence - or AnalysisError when the difference is not
+    understood.  Evidence: (E1) a cadence literal `k == C % P` with another constant / parameter / sense than documented,
+    (E2) a disjunction that weakens the documented predicate, (E3) a completely understood guard set without the documented
+    predicate while no loop around the call depends on the cadence parameter, (E4) an additional condition over parameters, counters and
+    flags returned by the environment / repo functions."""
+    OPS = {"Eq", "NotEq", "Lt", "LtE", "Is", "IsNot", "In", "NotIn", "and", "or", "not", "mod", "None", "True", "False"}
+    req_tokens = {t for p in required for t in re.findall(_IDENT, p)} - OPS - {"C", "w"}
+
+    def name_ok(nm, depth=0):
+        if nm in OPS or nm in pnames:
+            return True
+        ds_ = [d for n_ in cfg.nodes for d in n_.defs if d.name == nm]
+        if not ds_ or depth > 4:
+            return nm in req_tokens       # a name of the documented predicate itself (the repo function whose result is the flag)
+        for d in ds_:
+            if d.kind in ("param", "for", "aug", "with"):
+                continue
+            if result_position_def(cfg, d) is not None:
+                continue      # a position of a call's result
+            if d.kind == "assign" and d.value is not None and _simple_value(d.value) and all(name_ok(x_.id, depth + 1) for x_ in ast.walk(d.value) if isinstance(x_, ast.Name) and x_.id not in _TRANSPARENT):
+                continue      # a counter: `epoch = 0 ... epoch += 1`, `t = step + 1`
+            return False
+        return True
+
+    def understood(g):
+        # every modulo must be the plain `counter % parameter` (or `counter % <integer>`): a shifted counter / derived period may be an
+        # equivalent spelling
+        if any(not re.match(rf"^{_IDENT}, ({_IDENT}|\d+)\)", g[m.end():]) for m in re.finditer(r"mod\(", g)):
+            return False
+        return all(name_ok(nm) for nm in set(re.findall(_IDENT, g)))
+    for g in extra:
+        if g.startswith("or(") and g.endswith(")") and any(matches(x, required) for x in _split_args(g[3:-1])):
+            return f"the documented cadence predicate is weakened by a disjunction `{g}`: the update also runs when it is false"      # E2
+    unknown = [g for g in extra if not understood(g)]
+    if unknown:
+        raise AnalysisError(f"{q}: update {label} is guarded by {unknown} (cannot relate to the documented cadence)")
+    for g in extra:
+        m = _CADENCE_LIT.match(g)
+        if m and m.group(4) in pnames:
+            return f"guarded by the cadence `{g}`, documented {required or 'none'} (guards: {gs})"          # E1
+    if extra:
+        return (f"not guarded by the documented cadence {missing} and " if missing else "") + f"additionally guarded by {extra}: documented update points are skipped"      # E4
+    # E3: only documented / warm-up gates, the cadence predicate itself is absent.  The branch conditions around the call are all
+    # understood, so the cadence could only be realised by the loops around it (`for _ in range(step // period)` ...): evidence when the
+    # cadence parameter does not feed the header of an enclosing loop
+    feeding = set()
+    for b_, _lab in cfg.control_deps(nid):
+        s_ = cfg.nodes[b_].ast
+        hdr = s_.iter if isinstance(s_, (ast.For, ast.AsyncFor)) else s_.test if isinstance(s_, ast.While) else None
+        if hdr is not None:
+            feeding |= {x.id for x in ast.walk(hdr) if isinstance(x, ast.Name)}
+    for _ in range(4):
+        for n_ in cfg.nodes:
+            for d in n_.defs:
+                if d.name in feeding and isinstance(getattr(d, "value", None), ast.AST):
+                    feeding |= {x.id for x in ast.walk(d.value) if isinstance(x, ast.Name)}
+    if feeding & doc_params:
+        raise AnalysisError(f"{q}: update {label} is not under the documented cadence {missing} (guards: {gs}), but {sorted(feeding & doc_params)} feeds the header of a loop around it: the cadence may be realised there (unrecognised form)")
+    return f"not guarded by the documented cadence {missing} (guards: {gs}); no loop around the call depends on the cadence parameter"
+
+
+def _ordered_params(fn):
+    a = fn.args
+    return [x.arg for x in a.posonlyargs + a.args + a.kwonlyargs]
+
+
+_BOOL_EXTRAS = ("or", "and", "not")
+
+
+def _tau_fact(nf, sc, cfg, txt, truth, at, p_tau):
+    """What one branch literal of a helper says about the step size: ("eq", c) - on this arm tau == c (for tau in the documented
+    range [0, 1]); ("tau",) - a condition over tau and constants only; ("other",) - anything else."""
+    try:
+        e = ast.parse(txt, mode="eval").body
+    except SyntaxError:
+        return ("other",)
+    if p_tau is None:
+        return ("other",)
+    T = Poly.atom(p_tau)
+    if isinstance(e, ast.Compare) and len(e.ops) == 1 and isinstance(e.ops[0], (ast.Eq, ast.NotEq, ast.Lt, ast.LtE, ast.Gt, ast.GtE)):
+        d = nf.poly(e.left, sc, at) - nf.poly(e.comparators[0], sc, at)
+        if d.atoms() != {p_tau}:
+            return ("other",)
+        parts = d.degree_split(p_tau)
+        if set(parts) - {0, 1} or 1 not in parts or not parts[1].is_const() or (0 in parts and not parts[0].is_const()):
+            return ("tau",)
+        a = parts[1].const_value()
+        c = -(parts[0].const_value() if 0 in parts else 0) / a        # a * (tau - c)  <op>  0
+        op = type(e.ops[0])
+        if not truth:
+            op = {ast.Eq: ast.NotEq, ast.NotEq: ast.Eq, ast.Lt: ast.GtE, ast.LtE: ast.Gt, ast.Gt: ast.LtE, ast.GtE: ast.Lt}[op]
+        if a < 0:
+            op = {ast.Lt: ast.Gt, ast.LtE: ast.GtE, ast.Gt: ast.Lt, ast.GtE: ast.LtE}.get(op, op)
+        if op is ast.Eq or (op is ast.LtE and c == 0) or (op is ast.GtE and c == 1):
+            return ("eq", c)
+        return ("tau",)
+    p = nf.poly(e, sc, at)
+    if p == T:
+        return ("eq", 0) if not truth else ("tau",)       # `if not tau:` - the falsy step size is 0
+    return ("tau",) if p.atoms() == {p_tau} else ("other",)
+
+
+def _written_value(nf, repo, cfg, mi, sc, hq, ve, vn):
+    """(normal form of the value handed to nnx.update - leaf-wise for tree maps and optax.incremental_update -, text shown,
+    the expression that was read, its node)."""
+    for _ in range(6):
+        if isinstance(ve, ast.Name):
+            ds = cfg.defs_of(vn, ve.id)
+            if len(ds) == 1 and ds[0].kind == "assign" and ds[0].value is not None:
+                ve, vn = ds[0].value, ds[0].node
+                continue
+        break
+    fq = repo.resolve_expr(mi, ve.func) if isinstance(ve, ast.Call) and isinstance(ve.func, (ast.Name, ast.Attribute)) else None
+    if fq == "optax.incremental_update":
+        if any(isinstance(a_, ast.Starred) for a_ in ve.args) or any(kw.arg is None for kw in ve.keywords):
+            raise AnalysisError(f"{hq}: optax.incremental_update called with unpacked arguments (unrecognised form)")
+        b = dict(zip(("new_tensors", "old_tensors", "step_size"), ve.args))
+        b.update({kw.arg: kw.value for kw in ve.keywords})
+        if not all(k in b for k in ("new_tensors", "old_tensors", "step_size")):
+            raise AnalysisError(f"{hq}: optax.incremental_update `{short(ve, 80)}` does not bind new / old / step (unrecognised form)")
+        n_, o_, s_ = (nf.poly(b[k], sc, vn) for k in ("new_tensors", "old_tensors", "step_size"))
+        return s_ * n_ + (Poly.const(1) - s_) * o_, f"incremental_update(new={n_.canon()}, old={o_.canon()}, step={s_.canon()})", ve, vn
+    if fq in TREE_MAPS:
+        trees = [a_ for a_ in ve.args[1:] if not isinstance(a_, ast.Starred)]
+        if not ve.args or len(trees) != len(ve.args) - 1 or any(kw.arg not in ("is_leaf",) for kw in ve.keywords):
+            raise AnalysisError(f"{hq}: tree map `{short(ve, 80)}` with unpacked / unknown arguments (unrecognised form)")
+        leaf = leaf_application(repo, mi, ve.args[0], trees, cfg, vn)
+        got = nf.poly(leaf, sc, vn)
+        return got, f"leaf-wise {got.canon()}", leaf, vn
+    got = nf.poly(ve, sc, vn)
+    return got, got.canon(), ve, vn
+
+
+def _state_filter_only(nf, got, names):
+    """Every atom is a documented ingredient or `state(<net|target>, <filters>)`: the documented states restricted by a filter."""
+    seen = False
+    for a in got.atoms():
+        if a in names:
+            continue
+        m = nf.meta.get(a) or {}
+        if m.get("fn", "").split(".")[-1] == "state" and m.get("args") and f"state({m['args'][0].canon()})" in names and (len(m["args"]) > 1 or m.get("kws")):
+            seen = True
+            continue
+        return False
+    return seen
+
+
+def _reads(nf, sc, e, at):
+    """Canonical texts of the sub-expressions (calls and names) an expression is computed from."""
+    out = set()
+    for x in ast.walk(e):
+        if isinstance(x, ast.Call) or (isinstance(x, ast.Name) and isinstance(x.ctx, ast.Load)):
+            try:
+                out.add(nf.poly(x, sc, at).canon())
+            except AnalysisError:
+                pass
+    return out
+
+
+def _event(nf, repo, cfg, mi, sc, hq, c, nid, depth=0):
+    """One update event of a helper body: (object written, value written - leaf-wise normal form, text, what the value is read from).
+    The event is `nnx.update(obj, value)` or a call of the other helper, whose own single update is read with the arguments bound by
+    signature."""
+    fq = repo.resolve_expr(mi, c.func)
+    if fq == "flax.nnx.update":
+        if len(c.args) != 2 or c.keywords or any(isinstance(a_, ast.Starred) for a_ in c.args):
+            raise AnalysisError(f"{hq}: `{short(c, 60)}`: arguments of nnx.update cannot be read (unrecognised form)")
+        got_p, shown, read_e, read_n = _written_value(nf, repo, cfg, mi, sc, hq, c.args[1], nid)
+        return nf.poly(c.args[0], sc, nid), got_p, shown, _reads(nf, sc, read_e, read_n)
+    if depth:
+        raise AnalysisError(f"{hq}: the helpers call each other (unrecognised form)")
+    fn2 = repo.func(fq)
+    mi2, cfg2, op2 = fn2._module, nf.cfg_of(fn2), _ordered_params(fn2)
+    if any(isinstance(a_, ast.Starred) for a_ in c.args) or any(kw.arg is None for kw in c.keywords):
+        raise AnalysisError(f"{hq}: `{short(c, 60)}` with unpacked arguments (unrecognised form)")
+    b = bind_call(fn2, c)
+    n_par = 3 if HELPERS[fq] == "soft" else 2
+    if len(op2) < n_par or not all(op2[i] in b for i in range(n_par)):
+        raise AnalysisError(f"{hq}: `{short(c, 60)}` does not bind the parameters of {fq.rsplit('.', 1)[1]} (unrecognised form)")
+    inner = [(n2.id, c2) for n2 in cfg2.nodes if n2.ast is not None and n2.kind == "stmt" for c2 in ast.walk(n2.ast)
+             if isinstance(c2, ast.Call) and isinstance(c2.func, (ast.Name, ast.Attribute)) and repo.resolve_expr(mi2, c2.func) in ("flax.nnx.update",) + tuple(HELPERS)]
+    if len(inner) != 1 or cfg2.control_deps(inner[0][0]) or any(n2.kind == "test" for n2 in cfg2.nodes):
+        raise AnalysisError(f"{hq}: hands the update to {fq.rsplit('.', 1)[1]}, which does not consist of one unconditional update (unrecognised form)")
+    sc2 = Scope(cfg2, mi2, {}, fq)
+    t2, g2, shown2, reads2 = _event(nf, repo, cfg2, mi2, sc2, fq, inner[0][1], inner[0][0], depth + 1)
+    args = [nf.poly(b[op2[i]], sc, nid) for i in range(n_par)]
+    if args[0].single_atom() is None or args[1].single_atom() is None or t2.single_atom() not in (op2[0], op2[1]):
+        raise AnalysisError(f"{hq}: `{short(c, 60)}`: the networks handed on cannot be read (unrecognised form)")
+    mapping = {f"state({op2[0]})": Poly.atom(f"state({args[0].single_atom()})"), f"state({op2[1]})": Poly.atom(f"state({args[1].single_atom()})")}
+    if n_par == 3:
+        mapping[op2[2]] = args[2]
+    if not g2.atoms() <= set(mapping):
+        raise AnalysisError(f"{hq}: {fq.rsplit('.', 1)[1]} writes `{g2.canon()[:100]}`, which is not a function of its parameters' states (unrecognised form)")
+    got = g2.subst(mapping)
+    reads = {mapping[r].canon() for r in reads2 if r in mapping}
+    written = args[1] if t2.single_atom() == op2[1] else args[0]
+    return written, got, f"{fq.rsplit('.', 1)[1]}({', '.join(a_.canon() for a_ in args)}) = {got.canon()}", reads
+
+
+def _r1_helper(ck, repo, nf, hq, kind):
+    """The body of one helper, read by position of its parameters (net, target_net[, tau]) and per path."""
+    from ..sympath import enumerate_paths
+    fn = repo.func(hq)
+    mi = fn._module
+    cfg = nf.cfg_of(fn)
+    sc = Scope(cfg, mi, {}, hq)
+    op = _ordered_params(fn)
+    ck.need(len(op) >= (3 if kind == "soft" else 2), f"{hq}: signature changed (anchor vanished): {op}")
+    p_net, p_tgt, p_tau = op[0], op[1], (op[2] if kind == "soft" else None)
+    A, B = Poly.atom(f"state({p_net})"), Poly.atom(f"state({p_tgt})")
+    names = {f"state({p_net})", f"state({p_tgt})"} | ({p_tau} if p_tau else set())
+    want_p = (Poly.atom(p_tau) * A + (Poly.const(1) - Poly.atom(p_tau)) * B) if kind == "soft" else A
+    ups = {}
+    for n in cfg.nodes:
+        if n.ast is None or n.kind != "stmt":
+            continue
+        for c in ast.walk(n.ast):
+            if isinstance(c, ast.Call) and isinstance(c.func, (ast.Name, ast.Attribute)) and (repo.resolve_expr(mi, c.func) == "flax.nnx.update" or (repo.resolve_expr(mi, c.func) in HELPERS and repo.resolve_expr(mi, c.func) != hq)):
+                ups.setdefault(n.id, []).append(c)       # an update, or the work handed to the other helper
+    if not ups:
+        if not any(isinstance(x, ast.Name) and x.id == p_tgt and isinstance(x.ctx, ast.Load) for x in ast.walk(fn)):
+            ck.ob("R1-helper-law", hq, "single-update", False, f"0 nnx.update call(s); `{p_tgt}` is never read", "the helper cannot change the target network: its parameter is not used", loc(mi, fn))
+            return
+        raise AnalysisError(f"{hq}: no nnx.update call is visible: the target may be written by other means (unrecognised form)")
+    if any(cfg.enclosing_loops(nid) for nid in ups):
+        raise AnalysisError(f"{hq}: nnx.update runs inside a loop (unrecognised form)")
+    try:
+        paths = enumerate_paths(cfg, cfg.entry, {cfg.exit}, max_paths=200)
+    except RuntimeError:
+        raise AnalysisError(f"{hq}: too many paths through the helper (unrecognised form)")
+    ck.need(paths, f"{hq}: no path from entry to exit (unrecognised form)")
+    todo, skipping, multi = {}, [], False
+    for path in paths:
+        facts = []
+        for nid, lab in path:
+            bn = cfg.nodes[nid]
+            if bn.kind == "test" and hasattr(bn.ast, "test") and lab in (True, False):
+                for txt, truth in cfg._lits(bn.ast.test, lab, nid):
+                    if txt.isidentifier() and cfg._expand_name(ast.Name(id=txt, ctx=ast.Load()), nid) is not None:
+                        continue
+                    facts.append(_tau_fact(nf, sc, cfg, txt, truth, nid, p_tau))
+        eqs = {f[1] for f in facts if f[0] == "eq"}
+        if len(eqs) > 1:
+            continue        # contradictory conditions: not a path
+        bind = next(iter(eqs)) if eqs else None
+        on = [(nid, c) for nid, _ in path for c in ups.get(nid, [])]
+        if not on:
+            if not (kind == "soft" and bind == 0):      # tau = 0 is documented as a no-op
+                skipping.append((path, facts))
+        elif len(on) > 1:
+            multi = True
+        for nid, c in on:
+            todo.setdefault((nid, id(c), bind), (nid, c, bind))
+    for nid, c, bind in todo.values():
+        sfx = "" if bind is None else f"@{p_tau}={bind}"
+        tgt_p, got_p, shown, reads_old = _event(nf, repo, cfg, mi, sc, hq, c, nid)
+        tgt = tgt_p.canon()
+        if tgt_p.single_atom() not in (p_tgt, p_net):
+            raise AnalysisError(f"{hq}: `{short(c, 60)}` writes `{tgt[:80]}`, which is neither parameter (unrecognised form)")
+        ok_t = tgt_p.single_atom() == p_tgt
+        ck.ob("R1-helper-law", hq, "writes-target" + sfx, ok_t, f"nnx.update({tgt}, ...)", "" if ok_t else f"the helper writes `{tgt}`, not the target network (online network must stay unchanged)", loc(mi, c))
+        w_p = want_p
+        if bind is not None:
+            got_p, w_p = got_p.subst({p_tau: Poly.const(bind)}), want_p.subst({p_tau: Poly.const(bind)})
+        ok_v, inexact = got_p == w_p, False
+        if ok_v and kind == "hard" and f"state({p_tgt})" in reads_old:
+            # a hard copy is exact: a value that normalises to state(net) but is computed from the old target as well (t + 1*(p - t),
+            # 1*p + 0*t) differs from it in floating point (rounding, inf / nan in the old target)
+            ok_v, shown, inexact = False, shown + " (computed from the old target state by arithmetic)", True
+        if not ok_v and not (got_p == w_p) and not ((same_ingredients(got_p, w_p, _BOOL_EXTRAS + ("state", p_net, p_tgt)) and ingredient_tokens(got_p)) or _state_filter_only(nf, got_p, names)):
+            raise AnalysisError(f"{hq}: the value written to the target `{got_p.canon()[:120]}` is not a recognised form of `{w_p.canon()}` (unrecognised form)")
+        ck.ob("R1-helper-law", hq, "update-value" + sfx, ok_v, f"value = {shown}", "" if ok_v else ("a hard update must be an exact copy of the online state; arithmetic over the old target (rounding, inf / nan) is not" if inexact else f"expected {'leaf-wise ' if kind == 'soft' else ''}`{w_p.canon()}`: wrong source, swapped roles or modified step size"), loc(mi, c))
+    # every call must update the target (tau = 0 excepted, where doing nothing is the documented result)
+    witness = None
+    for path, facts in skipping:
+        if facts and all(f[0] in ("eq", "tau") for f in facts):
+            witness = path
+            break
+    if skipping and witness is None:
+        raise AnalysisError(f"{hq}: nnx.update is skipped under a condition that cannot be related to the step size (unrecognised form)")
+    ck.ob("R1-helper-law", hq, "unconditional", witness is None, "nnx.update is executed on every call", "" if witness is None else "the update is skipped on a path selected by the step size alone (and not only for tau = 0)", loc(mi, fn),
+          witness=cfg.describe_path([x for x, _ in witness]) if witness else None)
+    if multi:
+        raise AnalysisError(f"{hq}: several nnx.update calls on one path (unrecognised form)")
+    ck.ob("R1-helper-law", hq, "single-update", True, f"{sum(len(v) for v in ups.values())} nnx.update call(s), one per path", "", loc(mi, fn))
 
 
 def _KNOWN():
@@ -493,6 +901,33 @@ def _path_expr(path):
     return e
 
 
+def _read_phi(idn, ident, mi, cfg, q, depth=0):
+    """A variable with several reaching definitions each of which is a known object (parameter, clone, constructor, alias of one)
+    holds one of these objects: the merge is read as the alternative of them."""
+    from ..identity import _alt
+    if not isinstance(ident, tuple) or not ident or depth > 4:
+        return ident
+    if ident[0] == "attr":
+        return ("attr", _read_phi(idn, ident[1], mi, cfg, q, depth), ident[2])
+    if ident[0] == "alt":
+        return _alt({_read_phi(idn, m, mi, cfg, q, depth) for m in ident[1]})
+    if ident[0] == "phi" and len(ident) == 4:
+        name, vals = ident[2], set()
+        for nd in ident[3]:
+            d = cfg.get_def(nd, name)
+            if d is not None and d.kind == "param":
+                vals.add(("param", q, name))
+            elif d is not None and d.kind == "assign" and isinstance(d.value, ast.Constant) and d.value.value is None:
+                continue      # `x = None` holds no object: an update through x uses one of the other definitions
+            elif d is not None and d.kind == "assign" and d.value is not None:
+                vals.add(_read_phi(idn, idn._of_value(d.value, mi, cfg, d.node, q, name, 1), mi, cfg, q, depth + 1))
+            else:
+                return ident
+        if vals and all(_is_fresh(v) for v in vals):
+            return _alt(vals)
+    return ident
+
+
 def _ident_in_context(idn, res, repo, q, fn, cfg, nid, e):
     """Identity of expression ``e`` of function q; for `_train_step` the parameters are mapped to the single caller."""
     mi = fn._module
@@ -511,15 +946,15 @@ def _ident_in_context(idn, res, repo, q, fn, cfg, nid, e):
             if n.ast is None or n.kind != "stmt":
                 continue
             for c in ast.walk(n.ast):
-                if isinstance(c, ast.Call) and isinstance(c.func, ast.Name) and c.func.id == "_train_step":
+                if isinstance(c, ast.Call) and isinstance(c.func, (ast.Name, ast.Attribute)) and ((res.resolve(c.func, cfn._module, ccfg, n.id) or _NoTarget).qual == q or repo.resolve_expr(cfn._module, c.func) == q):
                     b = bind_call(fn, c)
                     arg = b.get(root[2])
                     if arg is not None:
                         ex = arg
                         for a in chain[::-1]:
                             ex = ast.Attribute(value=ex, attr=a, ctx=ast.Load())
-                        return idn.of(ex, cfn._module, ccfg, n.id, caller_q)
-    return base
+                        return _read_phi(idn, idn.of(ex, cfn._module, ccfg, n.id, caller_q), cfn._module, ccfg, caller_q)
+    return _read_phi(idn, base, mi, cfg, q)
 
 
 def _leaves_ctx(idn, res, repo, q, fn, cfg, ident):
@@ -534,7 +969,7 @@ def _leaves_ctx(idn, res, repo, q, fn, cfg, ident):
     if q.endswith("._train_step"):
         ctx_q = q.rsplit(".", 1)[0] + ".train_td7"
     cfn = repo.func(ctx_q)
-    return idn.leaves(ident, cfn._module, res.cfg_of(cfn), ctx_q)
+    return {_read_phi(idn, x, cfn._module, res.cfg_of(cfn), ctx_q) for x in idn.leaves(ident, cfn._module, res.cfg_of(cfn), ctx_q)}
 
 
 def _optax_oracle(ck, nf):
@@ -557,6 +992,8 @@ def _optax_oracle(ck, nf):
     step = [x.arg for x in fn.args.args][2]
     want = (Poly.atom(step) * Poly.atom(a) + (Poly.const(1) - Poly.atom(step)) * Poly.atom(b))
     ok = p == want
+    if not ok and not (same_ingredients(p, want) and ingredient_tokens(p)):
+        raise AnalysisError(f"optax.incremental_update: the installed leaf function `{p.canon()[:120]}` is not a recognised form of `{want.canon()}` (unrecognised form)")
     ck.ob("R1-helper-law", "optax.incremental_update", "polyak-identity", ok, f"leaf = {p.canon()}", "" if ok else f"installed optax leaf function is not {want.canon()}", "optax/_src/update.py")
 
 
@@ -588,6 +1025,17 @@ MUTANTS = [
     {"id": "c06-td7-checkpoint-unguarded", "file": _A + "td7.py", "rule": "R4", "find": "                if update_checkpoint:\n                    hard_target_net_update(policy, checkpoint)", "replace": "                if update_checkpoint or training_steps > 0:\n                    hard_target_net_update(policy, checkpoint)"},
     {"id": "c06-mrq-train-target", "file": _A + "mrq.py", "rule": "R3", "find": "        update_critic_and_policy,\n        q,\n        q_target,\n        q_optimizer,", "replace": "        update_critic_and_policy,\n        q_target,\n        q,\n        q_optimizer,"},
     {"id": "c06-ddpg-target-trained", "file": _A + "ddpg.py", "rule": "R3", "find": "                actor_loss_value = ddpg_update_actor(\n                    policy, policy_optimizer, q, batch.observation\n                )", "replace": "                actor_loss_value = ddpg_update_actor(\n                    policy_target, policy_optimizer, q, batch.observation\n                )"},
+    {"id": "c06-soft-skipped-for-small-tau", "file": _T, "rule": "R1", "find": "    params = nnx.state(net)\n    target_params = nnx.state(target_net)\n    target_params = optax", "replace": "    if tau < 0.5:\n        return\n    params = nnx.state(net)\n    target_params = nnx.state(target_net)\n    target_params = optax"},
+    {"id": "c06-soft-no-update", "file": _T, "rule": "R1", "find": "    target_params = nnx.state(target_net)\n    target_params = optax.incremental_update(params, target_params, tau)\n    nnx.update(target_net, target_params)", "replace": "    del params"},
+    {"id": "c06-hard-by-arithmetic", "file": _T, "rule": "R1", "edits": [("import optax\n", "import optax\nimport jax\n"), ("    nnx.update(target_net, nnx.state(net))", "    nnx.update(target_net, jax.tree.map(lambda p, t: t + 1.0 * (p - t), nnx.state(net), nnx.state(target_net)))")]},
+    {"id": "c06-hard-via-soft-unit-step", "file": _T, "rule": "R1", "find": "    nnx.update(target_net, nnx.state(net))", "replace": "    soft_target_net_update(net, target_net, 1.0)"},
+    {"id": "c06-td3-cadence-weakened", "file": _A + "td3.py", "rule": "R4", "find": "                if step % policy_delay == 0:", "replace": "                if step % policy_delay == 0 or step % 7 == 0:"},
+    {"id": "c06-sac-period-alias-of-other-parameter", "file": _A + "sac.py", "rule": "R4", "find": "            if step % target_network_delay == 0:", "replace": "            period = policy_delay\n            if step % period == 0:"},
+    {"id": "c06-ddpg-every-second-step", "file": _A + "ddpg.py", "rule": "R4", "find": "                soft_target_net_update(policy, policy_target, tau)\n                soft_target_net_update(q, q_target, tau)", "replace": "                if global_step % 2 == 0:\n                    soft_target_net_update(policy, policy_target, tau)\n                    soft_target_net_update(q, q_target, tau)"},
+    {"id": "c06-sac-soft-twice", "file": _A + "sac.py", "rule": "R4", "find": "                soft_target_net_update(q, q_target, tau)\n", "replace": "                soft_target_net_update(q, q_target, tau)\n                soft_target_net_update(q, q_target, tau)\n"},
+    {"id": "c06-sac-only-when-logging", "file": _A + "sac.py", "rule": "R4", "find": "                soft_target_net_update(q, q_target, tau)\n", "replace": "                if logger is not None:\n                    soft_target_net_update(q, q_target, tau)\n"},
+    {"id": "c06-sac-target-may-be-online", "file": _A + "sac.py", "rule": "R2", "find": "    if q_target is None:\n        q_target = nnx.clone(q)", "replace": "    q_target = q if q_target is None else q_target"},
+    {"id": "c06-ddpg-update-in-undocumented-routine", "file": _A + "ddpg.py", "rule": "R4", "edits": [("from ..blox.target_net import soft_target_net_update", "from ..blox.target_net import soft_target_net_update, hard_target_net_update"), (") -> float:\n    r\"\"\"DDPG actor update.", ") -> float:\n    hard_target_net_update(q, policy)\n    r\"\"\"DDPG actor update.")]},
     {"id": "c06-ddqn-extra-helper", "file": _A + "ddqn.py", "rule": "R4", "find": "            if step % target_update_frequency == 0:\n                hard_target_net_update(q_net, q_target_net)", "replace": "            if step % target_update_frequency == 0:\n                hard_target_net_update(q_net, q_target_net)\n        if terminated:\n            hard_target_net_update(q_net, q_target_net)"},
 ]
 BENIGN = [
@@ -602,5 +1050,17 @@ BENIGN = [
      "replace": "    nnx.update(\n        target_net,\n        optax.incremental_update(nnx.state(net), nnx.state(target_net), tau),\n    )"},
     {"id": "c06-b-sac-parens", "file": _A + "sac.py", "find": "            if step % target_network_delay == 0:", "replace": "            if (step % target_network_delay) == 0 and True:"},
     {"id": "c06-b-nature-split-guard", "file": _A + "nature_dqn.py", "find": "        if step >= learning_starts and step > batch_size:\n", "replace": "        if step > batch_size and learning_starts <= step:\n"},
+    {"id": "c06-b-helper-parameters-renamed", "file": _T, "edits": [("    net: nnx.Module, target_net: nnx.Module, tau: float\n", "    online: nnx.Module, target: nnx.Module, step_size: float\n"), ("static_argnames=[\"tau\"]", "static_argnames=[\"step_size\"]"),
+     ("    params = nnx.state(net)\n    target_params = nnx.state(target_net)\n    target_params = optax.incremental_update(params, target_params, tau)\n    nnx.update(target_net, target_params)", "    params = nnx.state(online)\n    target_params = nnx.state(target)\n    target_params = optax.incremental_update(params, target_params, step_size)\n    nnx.update(target, target_params)"),
+     ("def hard_target_net_update(net: nnx.Module, target_net: nnx.Module) -> None:", "def hard_target_net_update(source: nnx.Module, dest: nnx.Module) -> None:"), ("    nnx.update(target_net, nnx.state(net))", "    nnx.update(dest, nnx.state(source))")]},
+    {"id": "c06-b-soft-roles-mirrored", "file": _T, "find": "optax.incremental_update(params, target_params, tau)", "replace": "optax.incremental_update(target_params, params, 1.0 - tau)"},
+    {"id": "c06-b-soft-unit-step-on-its-own-path", "file": _T, "find": "    params = nnx.state(net)\n    target_params = nnx.state(target_net)\n    target_params = optax.incremental_update(params, target_params, tau)\n",
+     "replace": "    if tau == 1:\n        nnx.update(target_net, optax.incremental_update(nnx.state(net), nnx.state(target_net), 1))\n        return\n    params = nnx.state(net)\n    target_params = nnx.state(target_net)\n    target_params = optax.incremental_update(params, target_params, tau)\n"},
+    {"id": "c06-b-hard-identity-tree-map", "file": _T, "edits": [("import optax\n", "import optax\nimport jax\n"), ("    nnx.update(target_net, nnx.state(net))", "    online_state = jax.tree.map(lambda leaf: leaf, nnx.state(net))\n    nnx.update(target_net, online_state)")]},
+    {"id": "c06-b-nature-period-alias", "file": _A + "nature_dqn.py", "edits": [("    if q_target_net is None:\n", "    sync_every = int(target_update_frequency)\n    if q_target_net is None:\n"), ("            if step % target_update_frequency == 0:\n                hard", "            if step % sync_every == 0:\n                hard")]},
+    {"id": "c06-b-td3-warmup-strict-plus-one", "file": _A + "td3.py", "find": "        if step >= learning_starts:\n", "replace": "        warm_up = learning_starts\n        if step + 1 > warm_up:\n"},
+    {"id": "c06-b-nature-warmup-max", "file": _A + "nature_dqn.py", "find": "        if step >= learning_starts and step > batch_size:\n", "replace": "        if step >= max(learning_starts, batch_size + 1):\n"},
+    {"id": "c06-b-td7-step-parameter-renamed", "file": _A + "td7.py", "edits": [("    target_delay,\n    lap_alpha,", "    sync_period,\n    lap_alpha,"), ("    if epoch % target_delay == 0:\n        hard_target_net_update(policy.actor", "    if epoch % sync_period == 0:\n        hard_target_net_update(policy.actor")]},
+    {"id": "c06-b-td3-keywords-reordered", "file": _A + "td3.py", "find": "soft_target_net_update(q, q_target, tau)", "replace": "soft_target_net_update(tau=tau, target_net=q_target, net=q)"},
     {"id": "c06-b-td7-logging-between", "file": _A + "td7.py", "find": "        hard_target_net_update(critic, critic_target)\n", "replace": "        hard_target_net_update(critic, critic_target)\n        metrics[\"target update\"] = epoch\n"},
 ]
